@@ -1,1 +1,248 @@
-import AnyioModel.Kernel.Step
+/-
+C02  Task group errors: siblings cancelled, every exception surfaces exactly once.
+
+Property theorems only, on the kernel model; the accounting invariants `AInv`, `RInv` and the
+shape lemmas of `task_done` / `__aexit__` are in `AnyioModel.Kernel.GroupInv6`, `GroupInv7`.
+
+Ghost fields used: `Group.bodyErrs` (leaves of the non-cancellation exception the body handed to
+`__aexit__`), `Group.routed` (children whose exception `task_done` appended to `_exceptions`),
+`Task.outcome`, `Task.doneCbRun`.  `errs o` is what outcome `o` contributes: nothing for a
+`CancelledError` or a normal return, otherwise its leaves; `routedErrs st g` concatenates
+`errs (outcome u)` over `u ∈ routed g`.
+
+Deviations from the plan (`notes/KERNEL_THEOREMS.md`), see the comments at the theorems:
+* `C02_exactly_once_partial`: the permutation is proved up to a list `B0` of further leaves that
+  came from the body, which is `[]` as soon as `__aexit__` runs at most once per group;
+* `C02_siblings_cancelled` holds right after the transition that records the exception, not as an
+  invariant (`C02_siblings_cancelled_not_invariant` is the counterexample);
+* `C02_no_child_cancel_leaves` is stated on the routing: a child that ends with a `CancelledError`
+  contributes nothing (a cancellation leaf *inside an exception group* raised by a child is
+  recorded like the real code records the nested group).
+-/
+import AnyioModel.Kernel.GroupInv7
+
+namespace AnyioModel.Kernel
+
+/-- Accounting invariant, every reachable state, every group whose block has not ended:
+`_exceptions` is a permutation of `B0 ++ bodyErrs ++` the errors of the routed children, every
+child is routed at most once, and only children of the group whose `task_done` has run and whose
+outcome is a non-cancellation exception are routed.
+
+Full statement (not proved): the same with `B0 = []`.  `B0` collects the leaves recorded by
+earlier executions of the first part of `__aexit__` for the same group (`bodyErrs` is overwritten
+by the latest one).  `B0 = []` follows once `.aexit g` is known to be enabled at most once per
+group, which needs "the current scope of a running task is hosted by that task" -- an invariant
+of the scope forest that is not part of `WF`. -/
+theorem C02_exactly_once_partial {st : State} (h : Reach st) (g : Nat)
+    (hx : (st.groups g).exited = false) :
+    (∃ B0, List.Perm (st.groups g).exceptions
+      (B0 ++ ((st.groups g).bodyErrs ++ routedErrs st g))) ∧
+    (st.groups g).routed.Nodup ∧
+    (∀ u ∈ (st.groups g).routed, u ∈ (st.groups g).spawned ∧ (st.tasks u).doneCbRun = true ∧
+      ∃ o, (st.tasks u).outcome = some o ∧ o.isCancelledError = false ∧ o ≠ .none) := by
+  have a := ainv_reach h
+  refine ⟨a.acct g hx, a.nodup g, fun u hu => ?_⟩
+  have := a.routed_cb g u hu
+  exact ⟨(ginv_reach h).g0 u g this.2.1, this.1, this.2.2⟩
+
+/-- What the block raises: the end of `__aexit__` (the only place where `exited` is set) raises
+or returns `ev'` whose non-cancellation leaves are those of `_exceptions` if any were collected,
+otherwise those of the exception `ev` it was entered with: the group scope's `__exit__` filters
+cancellations only. -/
+theorem C02_exit_output {st st' : State} {t g : Nat} {ev : ExcVal} {o : Out}
+    (he : aexitFinish st t g ev = some (st', o)) :
+    ∃ ev', o = .done ev' ∧ (st'.groups g).exited = true ∧
+      ev'.leaves.filter (fun e => !e.isCancel) =
+        (if (st.groups g).exceptions ≠ [] then (st.groups g).exceptions
+          else ev.leaves).filter (fun e => !e.isCancel) := by
+  unfold aexitFinish at he
+  simp only [] at he
+  split at he
+  · contradiction
+  · rename_i st1 r hex
+    simp only [Option.some.injEq, Prod.mk.injEq] at he
+    obtain ⟨rfl, rfl⟩ := he
+    refine ⟨_, rfl, by simp, ?_⟩
+    rw [exitScope_eq] at hex
+    split at hex
+    · contradiction
+    · simp only [Option.some.injEq] at hex
+      have hr : r = (exitTail (restartInParent (exitCore st t (st.groups g).scope)
+          (st.groups g).scope) t (st.groups g).scope
+          (if (st.groups g).exceptions ≠ [] then ExcVal.group (st.groups g).exceptions else ev)).2 := by
+        rw [hex]
+      rw [hr, exitTail_nonCancel]
+      split <;> rfl
+
+/-- Exactly once at the end of the block, given the accounting invariant in the state in which
+the end of `__aexit__` runs (it holds there: `AInv` is preserved by every part of a transition,
+`ainv_closed`): if anything was collected, the non-cancellation leaves of what the block raises
+are a permutation of those of `B0 ++ bodyErrs ++ routedErrs`. -/
+theorem C02_exactly_once_at_exit_partial {st st' : State} {t g : Nat} {ev : ExcVal} {o : Out}
+    (ha : AInv st) (hx : (st.groups g).exited = false)
+    (hne : (st.groups g).exceptions ≠ [])
+    (he : aexitFinish st t g ev = some (st', o)) :
+    ∃ ev' B0, o = .done ev' ∧ List.Perm (ev'.leaves.filter (fun e => !e.isCancel))
+      ((B0 ++ ((st.groups g).bodyErrs ++ routedErrs st g)).filter (fun e => !e.isCancel)) := by
+  obtain ⟨ev', ho, _, hf⟩ := C02_exit_output he
+  obtain ⟨B0, hp⟩ := ha.acct g hx
+  refine ⟨ev', B0, ho, ?_⟩
+  rw [hf, if_pos hne]
+  exact hp.filter _
+
+/-- Quiet: if nothing was collected, the block returns normally or raises something with the
+non-cancellation leaves of the exception `__aexit__` was entered with; if that was `.none` or a
+`CancelledError` (nothing failed) it returns normally or re-raises exactly that. -/
+theorem C02_quiet {st st' : State} {t g : Nat} {ev : ExcVal} {o : Out}
+    (hq : (st.groups g).exceptions = []) (hev : ev = .none ∨ ev.isCancelledError = true)
+    (he : aexitFinish st t g ev = some (st', o)) : o = .done .none ∨ o = .done ev := by
+  unfold aexitFinish at he
+  simp only [hq, ne_eq, not_true_eq_false, if_false] at he
+  split at he
+  · contradiction
+  · rename_i st1 r hex
+    simp only [Option.some.injEq, Prod.mk.injEq] at he
+    obtain ⟨_, rfl⟩ := he
+    rw [exitScope_eq] at hex
+    split at hex
+    · contradiction
+    · simp only [Option.some.injEq] at hex
+      have hr : r = (exitTail (restartInParent (exitCore st t (st.groups g).scope)
+          (st.groups g).scope) t (st.groups g).scope ev).2 := by rw [hex]
+      rcases exitTail_snd (restartInParent (exitCore st t (st.groups g).scope)
+          (st.groups g).scope) t (st.groups g).scope ev with h | ⟨h, _⟩ | ⟨es, rfl, _⟩
+      · rw [hr, h]; exact .inr rfl
+      · rw [hr, h]; exact .inl rfl
+      · rcases hev with hev | hev
+        · cases hev
+        · simp [ExcVal.isCancelledError] at hev
+
+/-- None dropped: once `task_done` of a child `u` of `g` has run, its outcome `o` has been
+accounted for: it carries no error (`errs o = []`: returned, or ended with a `CancelledError`),
+or `u` is routed (its leaves are in `_exceptions` while the block lasts, `C02_exactly_once_partial`),
+or it was delivered to the caller of `start()` through the start future.  This covers children
+whose starter was cancelled while they unwound (F2). -/
+theorem C02_none_dropped {st : State} (h : Reach st) {g u : Nat} {o : Outcome}
+    (hu : u ∈ (st.groups g).spawned) (hc : (st.tasks u).doneCbRun = true)
+    (ho : (st.tasks u).outcome = some o) :
+    errs o = [] ∨ u ∈ (st.groups g).routed ∨
+      ∃ sf, (st.tasks u).startFut = some sf ∧ st.futs sf = .failed o :=
+  (rinv_reach h).complete u g o ((ginv_reach h).g2 g u hu).1 hc ho
+
+/-- Siblings cancelled: when `task_done` of child `u` records its exception in group `g`, in the
+resulting state the group scope is cancelled or effectively cancelled. -/
+theorem C02_siblings_cancelled {st st' : State} {u g : Nat}
+    (he : runTaskDone st u = some st') (hn : u ∉ (st.groups g).routed)
+    (hr : u ∈ (st'.groups g).routed) :
+    (st'.scopes (st'.groups g).scope).cancelCalled = true ∨
+      effCancelled st' (st'.groups g).scope = true := by
+  obtain ⟨g0, sc, o, hg, hsc, ho, ht⟩ := runTaskDone_shape he
+  have hB : ∀ g', ((taskDoneMid (taskDoneCore st u g0 sc) g0).groups g').routed =
+      (st.groups g').routed ∧ ((taskDoneMid (taskDoneCore st u g0 sc) g0).groups g').scope =
+      (st.groups g').scope := by
+    intro g'
+    have l := (gle_taskDoneMid (taskDoneCore st u g0 sc) g0).groups g'
+    rw [l.routed, l.scope]
+    unfold taskDoneCore
+    by_cases hgg : g' = g0
+    · subst hgg; simp
+    · simp [hgg]
+  generalize taskDoneMid (taskDoneCore st u g0 sc) g0 = M at ht hB
+  rcases taskDoneTail_shape ht with ⟨_, hgr, _⟩ | ⟨_, _, _, hr'⟩
+  · rw [hgr, (hB g).1] at hr; exact absurd hr hn
+  · have hgg : g = g0 := by
+      apply Classical.byContradiction; intro hne
+      rcases hr' with ⟨_, rfl⟩ | ⟨_, rfl⟩
+      · have : u ∈ (M.groups g).routed := by simpa [routeErr, hne] using hr
+        rw [(hB g).1] at this; exact hn this
+      · rw [((gle_cancelScope _ _ _).groups g).routed] at hr
+        have : u ∈ (M.groups g).routed := by simpa [routeErr, hne] using hr
+        rw [(hB g).1] at this; exact hn this
+    subst hgg
+    have hs : ((routeErr M g u o).groups g).scope = (M.groups g).scope := by simp [routeErr]
+    rcases hr' with ⟨heff, rfl⟩ | ⟨_, rfl⟩
+    · right; rw [hs]; exact heff
+    · left
+      rw [((gle_cancelScope _ _ _).groups g).scope, hs]
+      exact cancelScope_cancelCalled _ _ _
+
+/-- ... and when the body's exception is recorded (first part of `__aexit__` entered with a
+non-cancellation exception) the group scope is cancelled. -/
+theorem C02_siblings_cancelled_body {st : State} {g : Nat} {ev : ExcVal} (hev : ev ≠ .none) :
+    ((aexitPrep st g ev).scopes ((aexitPrep st g ev).groups g).scope).cancelCalled = true := by
+  unfold aexitPrep
+  simp only [ne_eq, hev, not_false_eq_true, if_true]
+  split
+  · rw [(cframe_cancelScope _ _ _).groups]; exact cancelScope_cancelCalled _ _ _
+  · simp only [setGroup_scopes, setGroup_groups, upd_same]
+    rw [(cframe_cancelScope _ _ _).groups]; exact cancelScope_cancelCalled _ _ _
+
+/-- The invariant form of the plan ("`exceptions ≠ [] ∧ ¬exited → cancelCalled gs ∨ effCancelled gs`")
+is false, in the model and in AnyIO: `task_done` does not call `cancel()` on a group scope that is
+effectively cancelled through an enclosing scope; if the group scope is shielded afterwards
+(`tg.cancel_scope.shield = True`) the failed group is not cancelled any more. -/
+theorem C02_siblings_cancelled_not_invariant :
+    ∃ st, Reach st ∧ (st.groups 0).exceptions ≠ [] ∧ (st.groups 0).exited = false ∧
+      (st.scopes (st.groups 0).scope).cancelCalled = false ∧
+      effCancelled st (st.groups 0).scope = false := by
+  have hrun : (runFrom step init
+      [.mkScope false none, .enter 0, .mkGroup, .groupEnter 0, .spawn 0, .cancel 0, .yield,
+       .beginCycle 0, .run (.step 1), .finish (.one (.err 1)), .run (.deliver 0), .run (.step 0),
+       .yield, .beginCycle 0, .run (.taskDone 1), .setShield 1 true]).map
+      (fun st => ((st.groups 0).exceptions, (st.groups 0).exited,
+        (st.scopes (st.groups 0).scope).cancelCalled, effCancelled st (st.groups 0).scope)) =
+      some ([.err 1], false, false, false) := by decide
+  cases hst : runFrom step init
+      [.mkScope false none, .enter 0, .mkGroup, .groupEnter 0, .spawn 0, .cancel 0, .yield,
+       .beginCycle 0, .run (.step 1), .finish (.one (.err 1)), .run (.deliver 0), .run (.step 0),
+       .yield, .beginCycle 0, .run (.taskDone 1), .setShield 1 true] with
+  | none => rw [hst] at hrun; simp at hrun
+  | some st =>
+    rw [hst] at hrun
+    simp only [Option.map_some, Option.some.injEq, Prod.mk.injEq] at hrun
+    refine ⟨st, reachable_of_runFrom (Reachable.start rfl) _ hst, ?_, hrun.2.1, hrun.2.2.1,
+      hrun.2.2.2⟩
+    rw [hrun.1]; simp
+
+/-- A child that ends with a `CancelledError` (because the group shut it down, or for any other
+reason) is never routed: it contributes nothing to `_exceptions`; its `task_done` leaves
+`_exceptions` of every group unchanged. -/
+theorem C02_no_child_cancel_leaves {st st' : State} {u : Nat} {o : Outcome}
+    (ho : (st.tasks u).outcome = some o) (hc : o.isCancelledError = true)
+    (he : runTaskDone st u = some st') :
+    ∀ g, (st'.groups g).exceptions = (st.groups g).exceptions ∧
+      (st'.groups g).routed = (st.groups g).routed := by
+  intro g
+  obtain ⟨g0, sc, o', hg, hsc, ho', ht⟩ := runTaskDone_shape he
+  rw [ho] at ho'; cases ho'
+  have hB : ((taskDoneMid (taskDoneCore st u g0 sc) g0).groups g).exceptions =
+      (st.groups g).exceptions ∧ ((taskDoneMid (taskDoneCore st u g0 sc) g0).groups g).routed =
+      (st.groups g).routed := by
+    have l := (gle_taskDoneMid (taskDoneCore st u g0 sc) g0).groups g
+    rw [l.routed, l.exceptions]
+    unfold taskDoneCore
+    by_cases hgg : g = g0
+    · subst hgg; simp
+    · simp [hgg]
+  rcases taskDoneTail_shape ht with ⟨_, hgr, _⟩ | ⟨_, hnc, _⟩
+  · rw [hgr]; exact hB
+  · rw [hc] at hnc; contradiction
+
+/-! ### non-vacuity -/
+
+/-- two children raise `err 1`, `err 2`, the body raises `err 3`: the block raises the three -/
+example : (traceFrom step init
+    [.mkGroup, .groupEnter 0, .spawn 0, .spawn 0, .aexit 0 (.one (.err 3)),
+     .beginCycle 0, .run (.step 1), .finish (.one (.err 1)), .run (.step 2),
+     .finish (.one (.err 2)), .run (.deliver 0),
+     .beginCycle 0, .run (.taskDone 1), .run (.taskDone 2), .run (.deliver 0),
+     .run (.wakeup 0)]).map (fun p => (p.2.getLast?, (p.1.groups 0).routed)) =
+    some (some (.done (.group [.err 3, .err 1, .err 2])), [2, 1]) := by decide
+
+/-- nothing fails: the block returns normally -/
+example : (traceFrom step init
+    [.mkGroup, .groupEnter 0, .spawn 0, .aexit 0 .none, .beginCycle 0, .run (.step 1),
+     .finish .none, .beginCycle 0, .run (.taskDone 1), .beginCycle 0, .run (.wakeup 0)]).map
+    (fun p => p.2.getLast?) = some (some (.done .none)) := by decide
+
+end AnyioModel.Kernel
